@@ -317,3 +317,102 @@ def check(facts, rep, tier, cfg):
                 rep.bad("C19.R7", "delay-clamped", "%s (%s)" % (loc_str(b.loc), b.path), "the returned delay is not clamped by `max`")
     if mux is not None:
         rep.floor("C19.R7", "Backoff::advance obligations", k7, 2)
+    # ---- R8 classification of the errors that mean "connection lost / could not be established"
+    rep.rule("C19.R8", "retryable(): the variants that stand for a lost / not-established connection are classified true "
+                       "(client: HandshakeTimeout, StreamRequestTimeout, ServerDisconnected; mux: KeepaliveTimeout, Closed) and the wrapping "
+                       "variants delegate to the inner error's classification")
+    WANT = {
+        "rusty_penguin_lib::client::Error": {"HandshakeTimeout": True, "StreamRequestTimeout": True, "ServerDisconnected": True,
+                                             "Tungstenite": "call", "TcpConnect": "call", "Tls": "call", "Mux": "call"},
+        "penguin_mux::Error": {"KeepaliveTimeout": True, "Closed": True, "WebSocket": "call"},
+    }
+    k8 = 0
+    for b in crate.bodies:
+        if b.name != "retryable" or "maybe_retryable" not in b.path:
+            continue
+        adt = b.j.get("impl_self", {}).get("adt")
+        if adt not in WANT:
+            continue
+        tr = Tracer(facts, b)
+        rep.analysed(b)
+        where = "%s (%s)" % (loc_str(b.loc), b.path)
+        # assignments to the return place
+        rets = []
+        for bi, blk in enumerate(b.blocks):
+            if blk["cleanup"]:
+                continue
+            for st in blk["stmts"]:
+                if st["k"] == "Assign" and st["lhs"]["l"] == 0 and not st["lhs"].get("p"):
+                    v = strip(tr.rvalue(st["rv"]))
+                    cv = const_eval(v)
+                    rets.append((bi, bool(cv) if cv is not None else "call"))
+            t = blk["term"]
+            if t["k"] == "Call" and (t.get("dest") or {}).get("l") == 0 and not (t.get("dest") or {}).get("p"):
+                rets.append((bi, "call"))
+        table = {}
+        for gb in range(len(b.blocks)):
+            if b.term(gb)["k"] != "SwitchInt":
+                continue
+            g = guard_at(facts, b, tr, gb)
+            if g is None or g.kind != "discr" or g.adt != adt:
+                continue
+            for succ, v in g.edges:
+                for rb, val in rets:
+                    if b.edge_dominates((gb, succ), rb) or rb == succ:
+                        if isinstance(v, str) and not v.startswith("!"):
+                            table.setdefault(v, set()).add(val)
+                        elif isinstance(v, str):
+                            table.setdefault("*", set()).add(val)
+                        elif v is None:
+                            table.setdefault("*", set()).add(val)
+        for var, want in WANT[adt].items():
+            k8 += 1
+            got = table.get(var) or table.get("*") or set()
+            if got == {want}:
+                rep.ok("C19.R8", "%s::%s" % (adt.split("::")[-2] if adt.startswith("rusty") else "mux", var), where, "-> %s" % want)
+            else:
+                rep.bad("C19.R8", "%s::%s" % (adt.split("::")[-2] if adt.startswith("rusty") else "mux", var), where,
+                        "%s::%s is classified %s by retryable(), expected %s: a connection lost / not established for this reason ends the "
+                        "client (or drops the parked request) instead of being retried" % (adt.split("::")[-1], var, sorted(map(str, got)), want))
+    rep.floor("C19.R8", "classified variants", k8, 10)
+    # ---- R1 (else arm) / R4 (delay source)
+    for b in crate.bodies:
+        if "/src/client/" not in b.file:
+            continue
+        tr = None
+        for gb in range(len(b.blocks)):
+            if b.term(gb)["k"] != "SwitchInt":
+                continue
+            tr = tr or Tracer(facts, b)
+            g = guard_at(facts, b, tr, gb)
+            if g is None or g.kind != "discr" or not g.adt or not g.adt.endswith("__tokio_select_util::Out"):
+                continue
+            if not any(callee(t) and callee(t)["name"] == "join_next" for _, t in b.calls()) or \
+                    not any(callee(t) and callee(t)["name"] == "get_datagram" for _, t in b.calls()):
+                continue
+            dis = [succ for succ, v in g.edges if v == "Disabled"]
+            where = "%s (%s)" % (loc_str(b.term(gb)["loc"]), b.path)
+            sd = set()
+            for bi, blk in enumerate(b.blocks):
+                for st in blk["stmts"]:
+                    if st["k"] == "Assign" and st["rv"]["k"] == "Aggregate" and st["rv"]["agg"].get("variant") == "ServerDisconnected":
+                        sd.add(bi)
+            rets = set(x for x in range(len(b.blocks)) if b.term(x)["k"] == "Return")
+            if not dis:
+                rep.bad("C19.R1", "else-arm", where, "the connected loop's select has no `else` arm (all sources closed = connection gone)")
+            elif any(rets & b.reachable_from(d, cut=sd) for d in dis):
+                rep.bad("C19.R1", "else-arm", where,
+                        "the `else` arm of the connected loop (every source closed: the multiplexor is gone) can leave the function without "
+                        "Err(ServerDisconnected): the client exits as if the user had quit instead of reconnecting")
+            else:
+                rep.ok("C19.R1", "else-arm", where, "else => Err(ServerDisconnected)")
+        for bi, t in b.calls():
+            c = callee(t)
+            if c and c["name"] == "timeout" and "tokio::time" in c["def"] and any(callee(t2) and callee(t2)["name"] == "advance" and "Backoff" in callee(t2)["def"] for _, t2 in b.calls()):
+                tr = tr or Tracer(facts, b)
+                where = "%s (%s)" % (loc_str(t["loc"]), b.path)
+                d = tr.operand(t["args"][0])
+                if any(x.kind == "call" and x[6] == "advance" for x in walk(d)):
+                    rep.ok("C19.R4", "delay-from-backoff", where, "the wait before the next attempt is the value returned by Backoff::advance")
+                else:
+                    rep.bad("C19.R4", "delay-from-backoff", where, "the wait before the next attempt (`%s`) is not the delay returned by Backoff::advance" % fmt(strip(d))[:60])
